@@ -1,13 +1,41 @@
 (* One entry point for the correspondence check: run (family :: arguments) = observable result,
    everything encoded as lists of integers so that the OCaml driver and the in-Coq re-evaluation
    (Eval vm_compute in run [...]) need no per-family glue. *)
-From Coq Require Import ZArith List.
-From Cqos Require Import RateConv.
+From Coq Require Import ZArith NArith List.
+From Cqos Require Import Base RateConv Float64 Divider.
 Import ListNotations.
 Open Scope Z_scope.
+
+Definition zs_to_ns (l : list Z) : list N := map Z.to_N l.
+Definition ns_to_zs (l : list N) : list Z := map Z.of_N l.
+
+(* split a length-prefixed list:  n :: x1 .. xn :: rest  ->  ([x1..xn], rest) *)
+Definition take_list (l : list Z) : list Z * list Z :=
+  match l with
+  | [] => ([], [])
+  | n :: r => (firstn (Z.to_nat n) r, skipn (Z.to_nat n) r)
+  end.
+
+(* family 2: [which; nil?; dividend; n; ps..; 2k; (key val)..] -> [isnil; key; val; ...]
+   which: 0 v2 Fair, 1 v2 Rate, 2 v1 FairDivider, 3 v1 RateDivider *)
+Definition run_divider (args : list Z) : list Z :=
+  match args with
+  | which :: isnil :: dividend :: r =>
+      let '(ps, r1) := take_list r in
+      let '(kv, _) := take_list r1 in
+      let d0 := if isnil =? 0 then Some (unflatten_dist (zs_to_ns kv)) else None in
+      let dv : Divider := if orb (which =? 0) (which =? 2) then fair else rate part_f in
+      let call := if which <? 2 then v2_call else v1_call in
+      match call dv (zs_to_ns ps) (Z.to_N dividend) d0 with
+      | None => [1]
+      | Some d => 0 :: ns_to_zs (flatten_dist d)
+      end
+  | _ => [-1]
+  end.
 
 Definition run (args : list Z) : list Z :=
   match args with
   | 1 :: which :: rest => run_rate which rest
+  | 2 :: rest => run_divider rest
   | _ => [-999]
   end.
